@@ -394,6 +394,15 @@ def abstract(e, table):
     return (k,) + tuple(abstract(a, table) if isinstance(a, tuple) else a for a in e[1:])
 
 
+def _replace(e, table):
+    """Replace every occurrence of a sub-expression listed in table (expr -> expr)."""
+    if not isinstance(e, tuple):
+        return e
+    if e in table:
+        return table[e]
+    return tuple(_replace(a, table) for a in e)
+
+
 def _remove_term(e, prod):
     """Remove the additive sub-term `prod` from expression e (structure of + and -)."""
     if e == prod:
@@ -423,6 +432,12 @@ def rule_prune(ctx, F):
     # the comparison of the stored cell with the threshold
     inner = F.inner
     brk = [e for e in F.col.events if e[0] == 'break']
+    if F.store[3][0] not in ('num', 'var'):
+        # the value may be held in a local that is both stored and compared: read the comparisons as comparisons of the cell
+        rep = {F.store[3]: stored}
+        brk = [(e[0], tuple(_replace(c, rep) for c in e[1])) + tuple(e[2:]) for e in brk]
+    else:
+        rep = {}
     if len(brk) != 1:
         ctx.violation('R-PRUNE', F.file, F.name, 'prune break', 'expected exactly one early break in the column loop, found %d' % len(brk), F.inner_line)
         return
@@ -457,7 +472,7 @@ def rule_prune(ctx, F):
     ctx.check(okb, 'R-PRUNE', F.file, F.name, 'prune break guard', 'the early break must be guarded by `j >= ec` (ec from the previous row); found %s' % fmt(last)[:120], brk[0][2].line)
     ecv = last[3][1][:-5] if okb else None
     # end-of-iteration values
-    env_out = F.col_env or {}
+    env_out = {k: _replace(v, rep) if isinstance(v, tuple) else v for k, v in (F.col_env or {}).items()}
     P = ('bin', '>', stored, b) if not neg else None
     # sc: the carried variable in the column lower bound
     scs = [x[:-5] for x in sym.atoms(F.lo) if x.endswith('@prev')]
